@@ -98,6 +98,13 @@ def _check_closed_forms(model, u, w, N, D, stats, where):
             lk = float(model.log_kappa(d))
             if abs(lk - math.log(_kappa(N, d))) > 1e-9 * max(1, abs(lk)):
                 raise Violation("C15/closed-form/log_kappa", {"d": d, "library": lk, "definition": math.log(_kappa(N, d))})
+        for lo in (2, 3):
+            if lo <= D:
+                ds = np.arange(lo, D + 1)
+                got = np.asarray(model.log_kappa(ds), dtype=float)
+                want = np.array([math.log(_kappa(N, int(d))) for d in ds])
+                if got.shape != want.shape or not np.allclose(got, want, rtol=1e-9, atol=1e-12):
+                    raise Violation("C15/closed-form/log_kappa[array]", {"sizes": ds.tolist(), "library": short(got.tolist()), "definition": short(want.tolist())})
         mean = np.array([ref[i] / _kappa(N, len(e)) for i, e in enumerate(edges)])
         deg = np.zeros(N)
         for m, e in zip(mean, edges):
